@@ -1,5 +1,10 @@
 use proc_macro2::Span;
 use scale_info::form::PortableForm;
+#[cfg(feature = "verif-hooks")]
+use crate::verif_hooks::HashMap;
+#[cfg(feature = "verif-hooks")]
+use std::borrow::Borrow;
+#[cfg(not(feature = "verif-hooks"))]
 use std::{borrow::Borrow, collections::HashMap};
 use syn::{parse_quote, spanned::Spanned as _, PathSegment};
 
